@@ -113,7 +113,15 @@ func XferGrid(args []string) {
 	wdV := fs.Duration("watchdog-vnet", 5*time.Second, "watchdog for simulated transports")
 	wdQ := fs.Duration("watchdog-quic", 10*time.Second, "watchdog for real QUIC")
 	budget := fs.Duration("budget", 10*time.Minute, "wall-clock budget")
+	traceOut := fs.String("trace-out", "", "prefix of the hook trace file for SessionTrace.tla (shard number appended)")
 	fs.Parse(args)
+	if *traceOut != "" {
+		installHooks()
+		if f, err := os.Create(fmt.Sprintf("%s.%d", *traceOut, *shard)); err == nil {
+			defer f.Close()
+			xfer.SetTraceSink(f)
+		}
+	}
 	rows, err := loadRows[gridRow](*edges)
 	if err != nil {
 		panic(err)
@@ -193,6 +201,7 @@ func XferGrid(args []string) {
 	res.Extra["outcomes"] = byOutcome
 	res.Extra["skipped_over_budget"] = skipped
 	res.Extra["grid_rows"] = len(rows)
+	res.Extra["transfers_not_traced"] = xfer.TraceSkipped()
 	res.Print()
 }
 
@@ -231,8 +240,15 @@ func XferFaults(args []string) {
 	stride := fs.Int("stride", 1, "take every n-th byte offset (1 = every byte)")
 	wd := fs.Duration("watchdog", 6*time.Second, "watchdog after which a run counts as hung")
 	budget := fs.Duration("budget", 10*time.Minute, "wall-clock budget")
+	traceOut := fs.String("trace-out", "", "prefix of the hook trace file for SessionTrace.tla (shard number appended)")
 	fs.Parse(args)
 	installHooks()
+	if *traceOut != "" {
+		if f, err := os.Create(fmt.Sprintf("%s.%d", *traceOut, *shard)); err == nil {
+			defer f.Close()
+			xfer.SetTraceSink(f)
+		}
+	}
 	res := &Result{Extra: map[string]any{}}
 	base, _ := os.MkdirTemp("", "faults-")
 	defer os.RemoveAll(base)
@@ -375,6 +391,7 @@ func XferFaults(args []string) {
 	res.Extra["by_kind"] = kinds
 	res.Extra["outcomes"] = outcomes
 	res.Extra["skipped_over_budget"] = skipped
+	res.Extra["transfers_not_traced"] = xfer.TraceSkipped()
 	res.Print()
 }
 
